@@ -163,8 +163,10 @@ private:
     auto oldState =
         opState_.fetch_and(~scopeEndedBit, std::memory_order_acq_rel);
 
-    if (use_count(oldState) == 0) {
-      // there are no outstanding operations to wait for
+    if ((oldState & scopeEndedBit) != 0u && use_count(oldState) == 0) {
+      // this call ended the scope and there are no outstanding operations to
+      // wait for; if the scope had already been ended then whoever brought
+      // the state to (ended, 0) is responsible for signalling the event
       evt_.set();
     }
   }
